@@ -525,6 +525,14 @@ def match_kind(prog: Program) -> RuleResult:
     return r
 
 
+def _carry1(prog):
+    # a pattern is matched against the attribute values the elements have when the query is evaluated: nothing a node records during one
+    # evaluation (looked-up attribute values, verdicts) survives into the next
+    from .c03 import carry1
+
+    return carry1(prog)
+
+
 def _hv_truth(prog):
     # a solution / binding / argument whose value is falsy is a value like any other: bound values are asked for presence, not for truth
     from .hvtruth import hv_truth
@@ -541,4 +549,4 @@ def run(prog: Program, tier: str) -> List[RuleResult]:
     # match_any compiles to the existential quantifier: one answer per binding of the free variables
     return [match_table(prog), match_kind(prog), match_iter(prog), match_factory(prog), match_memo_order(prog), match_ops(prog), ident_dedup(prog), domain_cache(prog), ep_quant(prog),
             # selected inner parts are evaluated under the bindings of the matched element: the row threading of C01
-            ep_thread(prog), _hv_truth(prog)]
+            ep_thread(prog), _hv_truth(prog), _carry1(prog)]
